@@ -259,9 +259,9 @@ def words(chk, rng):
 def run(chk):
     rng = np.random.default_rng(1500 + chk.seed)
     chk.extra['source_digest'] = common.source_digest(FILES)
-    chk.prove([(MODULE, THEOREMS), ('NautilusVerif.Properties.CoreTie', ['Core_tie_priorAddParameter', 'Core_tie_priorDimensionality', 'Core_tie_priorUnitToPhysical', 'Core_tie_priorPhysicalToDictionary', 'Core_tie_priorUnitToDictionary'])], None, {'NautilusVerif/Generated/CoreSrc.lean': __import__('gen_core').generate(common.REPO)[0]})
+    chk.prove([(MODULE, THEOREMS), *common.core_tie(['priorAddParameter', 'priorDimensionality', 'priorUnitToPhysical', 'priorPhysicalToDictionary', 'priorUnitToDictionary'])], None, {'NautilusVerif/Generated/CoreSrc.lean': __import__('gen_core').generate(common.REPO)[0]})
     if chk.tier == 'thorough':
-        chk.leanchecker([MODULE, 'NautilusVerif.Properties.CoreTie'])
+        chk.leanchecker([MODULE])
     ws = words(chk, rng)
     reqs, impl = [], []
     kinds = {}
